@@ -27,3 +27,20 @@ Theorem C20_forms_auth_dict_record : forall O P j rec, parse_auth_cred_json O (i
   verify_auth O P (InDict j) = verify_auth O P (InRec rec).
 Proof. exact auth_forms_dict_rec. Qed.
 Print Assumptions C20_forms_auth_dict_record.
+
+(* registration *)
+From PW Require Import Model.VerifyReg Spec.RegSpec Proofs.RegProofs.
+Theorem C20_mono_reg : forall O P P' c r, reg_looser P P' ->
+  verify_reg O P c = Ok r -> verify_reg O P' c = Ok r.
+Proof. exact reg_monotone_any_form. Qed.
+Print Assumptions C20_mono_reg.
+
+Theorem C20_forms_reg_text_dict : forall O P s j, o_json_loads O true s = JOk j ->
+  verify_reg O P (InText s) = verify_reg O P (InDict j).
+Proof. exact reg_forms_text_dict. Qed.
+Print Assumptions C20_forms_reg_text_dict.
+
+Theorem C20_forms_reg_dict_record : forall O P j rec, parse_reg_cred_json O (inr j) = Ok rec ->
+  verify_reg O P (InDict j) = verify_reg O P (InRec rec).
+Proof. exact reg_forms_dict_rec. Qed.
+Print Assumptions C20_forms_reg_dict_record.
